@@ -20,8 +20,10 @@ package main
 
 import (
 	"bytes"
+	"errors"
 	"io"
 	"io/ioutil"
+	"math/big"
 	"reflect"
 	"strconv"
 	"strings"
@@ -76,6 +78,55 @@ type nestedPlain struct {
 	Pre  string
 	V    []uint64
 	Post uint64
+}
+
+var errFault = errors.New("injected fault")
+
+// faultWriter takes writes until their total would exceed limit, then fails.
+type faultWriter struct {
+	buf   []byte
+	limit int
+}
+
+func (w *faultWriter) Write(p []byte) (int, error) {
+	if len(w.buf)+len(p) > w.limit {
+		return 0, errFault
+	}
+	w.buf = append(w.buf, p...)
+	return len(p), nil
+}
+
+// faultReader delivers at most `left` bytes, then fails (it is a ByteReader, so the Stream reads
+// from it directly, without an input limit).
+type faultReader struct {
+	r    *bytes.Reader
+	left int
+}
+
+func (f *faultReader) Read(p []byte) (int, error) {
+	if len(p) == 0 {
+		return 0, nil
+	}
+	if f.left <= 0 {
+		return 0, errFault
+	}
+	if len(p) > f.left {
+		p = p[:f.left]
+	}
+	n, err := f.r.Read(p)
+	f.left -= n
+	return n, err
+}
+
+func (f *faultReader) ReadByte() (byte, error) {
+	if f.left <= 0 {
+		return 0, errFault
+	}
+	b, err := f.r.ReadByte()
+	if err == nil {
+		f.left--
+	}
+	return b, err
 }
 
 type session struct {
@@ -268,6 +319,82 @@ func (ss *session) step(st string) (string, bool) {
 			return "", false
 		}
 		return strings.Join(out, "|") + "|c=" + strconv.Itoa(len(b)-rdr.Len()), true
+	case "fx":
+		// values the encoder must refuse, part-way through or up front; nothing may linger in the
+		// pool / type cache afterwards
+		if len(f) != 2 {
+			return "", false
+		}
+		var v interface{}
+		switch f[1] {
+		case "neg":
+			v = &struct {
+				A []uint64
+				B *big.Int
+				C string
+			}{[]uint64{1, 2, 300}, big.NewInt(-1), "tail"}
+		case "int":
+			v = &struct {
+				A uint64
+				B []struct{ X int }
+			}{1, nil}
+		case "chan":
+			v = &struct {
+				A string
+				C chan int
+			}{"x", nil}
+		default:
+			return "", false
+		}
+		if _, err := rlp.EncodeToBytes(v); err != nil {
+			return "!", true
+		}
+		return "accepted", true
+	case "wf":
+		// Encode into a writer that refuses to take more than k bytes in total
+		if len(f) != 4 {
+			return "", false
+		}
+		k, err := strconv.Atoi(f[1])
+		v, ok, ok2 := tyVal(2)
+		if err != nil || !ok {
+			return "", false
+		}
+		if !ok2 {
+			return "!", true
+		}
+		p := reflect.New(v.Type())
+		p.Elem().Set(v)
+		fw := &faultWriter{limit: k}
+		werr := rlp.Encode(fw, p.Interface())
+		if werr == nil {
+			ss.kept = append(ss.kept, fw.buf)
+			return hx.Hex(fw.buf), true
+		}
+		if werr != errFault {
+			return "!", true
+		}
+		full, err := encodePtr(v)
+		if err != nil || !bytes.HasPrefix(full, fw.buf) {
+			return "!x", true // what reached the writer is not a prefix of the encoding
+		}
+		return "!p", true
+	case "rf":
+		// Decode from a reader that fails once k bytes have been delivered
+		if len(f) != 4 {
+			return "", false
+		}
+		k, err := strconv.Atoi(f[1])
+		ty, err1 := tyOf(f[2])
+		b, err2 := hx.UnHex(f[3])
+		if err != nil || err1 != nil || err2 != nil {
+			return "", false
+		}
+		pv := reflect.New(goType(ty))
+		if err := rlp.Decode(&faultReader{r: bytes.NewReader(b), left: k}, pv.Interface()); err != nil {
+			return "err", true
+		}
+		return "ok " + showVal(pv.Elem()), true
 	case "chk":
 		parts := make([]string, len(ss.kept))
 		for i, b := range ss.kept {
@@ -314,13 +441,53 @@ func nestedVal(r *hx.Rng) string {
 	return strings.Join(parts, ",")
 }
 
+// histOp: the same four operations on a fresh pair of types (a plain []T and a struct whose last field
+// is a `rlp:"tail"` []T) in a given order; the answers must not depend on the order (type cache).
+func histOp(r *hx.Rng, order string, elem *Ty, n int) string {
+	et := &Ty{K: "R", Fs: []Field{{"", elem}}}
+	plain := &Ty{K: "S", E: et}
+	tail := &Ty{K: "R", Fs: []Field{{"", &Ty{K: "u64"}}, {"tail", plain}}}
+	parts := []string{"L" + strconv.Itoa(n)}
+	for i := 0; i < n; i++ {
+		parts = append(parts, "L1", genVal(r, elem, true, 2))
+	}
+	v := strings.Join(parts, ",")
+	pe, ok1 := encodeText(plain, v)
+	te, ok2 := encodeText(tail, "L2,N7,"+v)
+	if !ok1 || !ok2 {
+		pe, te = []byte{0xc0}, []byte{0xc1, 0x07}
+	}
+	return "hist " + order + " " + elem.String() + " " + v + " " + hx.Hex(pe) + " " + hx.Hex(te)
+}
+
+var histOrders = []string{"PTpt", "TPpt", "ptPT", "tpTP", "PpTt", "TtPp", "pTtP", "tPpT"}
+
 func genApiSession(r *hx.Rng) string {
 	var steps []string
 	open := []string{}
 	nextID := 0
 	n := 4 + r.Intn(8)
 	for i := 0; i < n; i++ {
-		switch r.Intn(12) {
+		switch r.Intn(15) {
+		case 12:
+			steps = append(steps, "fx:"+pickS(r, "neg", "int", "chan"))
+		case 13:
+			t, v := smallTyVal(r)
+			ty, _ := tyOf(t)
+			n := 0
+			if enc, ok := encodeText(ty, v); ok {
+				n = len(enc)
+			}
+			steps = append(steps, "wf:"+strconv.Itoa(r.Pick(0, 1, 2, n/2, max(0, n-1), n, n+1, 56))+":"+t+":"+v)
+		case 14:
+			t, v := smallTyVal(r)
+			ty, _ := tyOf(t)
+			if enc, ok := encodeText(ty, v); ok && len(enc) < 400 && len(enc) > 0 {
+				n := len(enc)
+				k := r.Pick(0, 1, 2, n/2, n-1, n, n+1)
+				enc = append(enc, r.Bytes(r.Intn(3))...)
+				steps = append(steps, "rf:"+strconv.Itoa(k)+":"+t+":"+hx.Hex(enc))
+			}
 		case 0, 1:
 			t, v := smallTyVal(r)
 			steps = append(steps, pickS(r, "eb", "eb", "ew")+":"+t+":"+v)
